@@ -124,7 +124,11 @@ impl<'a> NumberPartsFmt<'a> {
                 },
                 'u' => {
                     if let Some(ref unit) = parts.raw_unit {
-                        if unit.is_dimensionless() {
+                        // A bare constant factor is still part of the result.
+                        if unit.is_dimensionless()
+                            && parts.factor.is_none()
+                            && parts.divfactor.is_none()
+                        {
                             continue;
                         }
                         let mut frac = vec![];
